@@ -15,7 +15,9 @@ EXPLANATION = (
     "module- or class-level mutable (Species._known_elements/_known_pseudoelements/_replacement, chemistrydata.user_*, KROMEReaction.reacformat/"
     "_user_commons/_user_vars, the two registries of network.py) is one of the sanctioned writers, and every Network entry point that parses "
     "species names installs the network's own element lists first -- unconditionally; R4 every class attribute KROMEReaction.preprocessing mutates "
-    "is reset by initialize(), which Network calls before reading a file / creating a reaction from a string.")
+    "is reset by initialize(), which Network calls before reading a file / creating a reaction from a string; R5 the renderers (templateloader.py, "
+    "patches.py) never write to an object they were given (parameters and locals aliasing them): no in-place method, item/attribute store or del -- "
+    "the one sanctioned exception (network.reindex(), idempotent) is listed.")
 ASSUMPTIONS = [
     "byte identity of two actual runs is not decided",
     "Jinja's list_templates() returns a sorted list",
@@ -149,6 +151,66 @@ def check(ctx):
     _r2(ctx, pkg)
     _r3(ctx, pkg)
     _r4(ctx, pkg)
+    _r5(ctx, pkg)
+
+
+# ------------------------------------------------------------------ R5  rendering reads its inputs, it does not consume them
+
+RENDERERS = ("naunet/templateloader.py", "naunet/patches.py")
+SANCTIONED_INPUT_WRITES = {
+    ("TemplateLoader.render", "network.reindex()"): "idempotent: assigns idxfromfile = position; a second rendering assigns the same values",
+}
+IN_PLACE = {"append", "add", "update", "pop", "remove", "clear", "extend", "insert", "sort", "reverse", "discard", "setdefault", "popitem",
+            "difference_update", "intersection_update", "reindex", "add_reaction", "remove_reaction"}
+
+
+def _root(e):
+    while isinstance(e, (ast.Attribute, ast.Subscript)):
+        e = e.value
+    return e.id if isinstance(e, ast.Name) else None
+
+
+def _r5(ctx, pkg):
+    nfun = 0
+    nwrites = 0
+    for f in RENDERERS:
+        ctx.saw(f)
+        for qual, fn in _functions(pkg, f):
+            nfun += 1
+            params = {a.arg for a in fn.args.args + fn.args.kwonlyargs if a.arg not in ("self", "cls")}
+            # locals that ARE an input object (x = param / x = param.attr / x = param[...]): still the caller's object
+            alias = set(params)
+            changed = True
+            while changed:
+                changed = False
+                for n in ast.walk(fn):
+                    if isinstance(n, ast.Assign) and len(n.targets) == 1 and isinstance(n.targets[0], ast.Name) and isinstance(n.value, (ast.Name, ast.Attribute, ast.Subscript)) \
+                            and _root(n.value) in alias and n.targets[0].id not in alias:
+                        alias.add(n.targets[0].id)
+                        changed = True
+            for n in ast.walk(fn):
+                hit = None
+                if isinstance(n, ast.Call) and isinstance(n.func, ast.Attribute) and n.func.attr in IN_PLACE and _root(n.func.value) in alias:
+                    hit = ast.unparse(n)
+                elif isinstance(n, (ast.Assign, ast.AugAssign)):
+                    for t in (n.targets if isinstance(n, ast.Assign) else [n.target]):
+                        if isinstance(t, (ast.Attribute, ast.Subscript)) and _root(t) in alias:
+                            hit = ast.unparse(n)
+                elif isinstance(n, ast.Delete):
+                    for t in n.targets:
+                        if isinstance(t, (ast.Attribute, ast.Subscript)) and _root(t) in alias:
+                            hit = ast.unparse(n)
+                if hit is None:
+                    continue
+                nwrites += 1
+                text = " ".join(hit.split())
+                why = SANCTIONED_INPUT_WRITES.get((qual, text))
+                ctx.check(why is not None, "R5", f"{qual}:writes input:{text[:70]}", (f, n.lineno),
+                          f"sanctioned: {why}" if why else
+                          "the renderer changes an object it was given (the network's own table/list): a second rendering of the same network starts from different data -- the output depends on how often it was rendered",
+                          expected="inputs are read only (work on a copy)", found=text[:120])
+    ctx.floor("R5", "renderer functions scanned", nfun, 15)
+    ctx.floor("R5", "writes to inputs (sanctioned)", nwrites, 1)
 
 
 def _functions(pkg, f):
@@ -426,6 +488,8 @@ def _r4(ctx, pkg):
 
 
 MUTANTS = [
+    {"name": "render-pops-rate-modifier", "file": "naunet/templateloader.py", "old": "            for key, value in rate_modifier.items():\n                if key == reac.idxfromfile:", "new": "            for key, value in list(rate_modifier.items()):\n                if key == reac.idxfromfile and rate_modifier.pop(key, True):", "rules": ["R5"]},
+    {"name": "render-sorts-network-species", "file": "naunet/templateloader.py", "old": "        speckws = network._species_kwargs\n", "new": "        speckws = network._species_kwargs\n        network.reaction_list.sort(key=str)\n", "rules": ["R5"]},
     {"name": "species-not-sorted", "file": NF, "old": "        speclist = sorted(\n            self._reactants | self._products | set(self._required_species)\n        )\n\n        connection", "new": "        speclist = list(\n            self._reactants | self._products | set(self._required_species)\n        )\n\n        connection", "rules": ["R1"]},
     {"name": "collect-through-set", "file": "naunet/utilities.py", "old": "    for comp in complist:\n        var_dict", "new": "    for comp in set(complist):\n        var_dict", "rules": ["R1"]},
     {"name": "install-call-deleted", "file": NF, "old": "        if self._known_elements or self._known_pseudo_elements:\n            Species.set_known_elements(self._known_elements)\n            Species.set_known_pseudoelements(self._known_pseudo_elements)\n\n        new_reactants = set()", "new": "        new_reactants = set()", "rules": ["R3"]},
